@@ -30,9 +30,9 @@ SIM_ASSUME = ["sim streams replace sockets (StreamType template seam); TLS/WebSo
 
 CHECKS = {
     "C04": {"jobs": [{"name": "simnet", "target": "simnet", "args": ["--set", "C04"], "thorough_args": ["--thorough"]}], "assumptions": SIM_ASSUME},
-    "C05": {"jobs": [{"name": "simnet", "target": "simnet", "args": ["--set", "C05"], "thorough_args": ["--thorough"]},
+    "C05": {"budget_thorough": 5000, "jobs": [{"name": "simnet", "target": "simnet", "args": ["--set", "C05"], "thorough_args": ["--thorough"], "budget_thorough": 3300, "timeout_thorough": 3500},
                      # destruction / cancellation paths again under ASan+UBSan (use-after-free is the typical failure here), one deviation less
-                     {"name": "simnet-asan", "target": "simnet_asan", "args": ["--set", "C05"], "quick_args": ["--dcap", "1"], "thorough_args": ["--thorough", "--dcap", "2"], "env": ASAN_ENV, "timeout_quick": 900}],
+                     {"name": "simnet-asan", "target": "simnet_asan", "args": ["--set", "C05"], "quick_args": ["--dcap", "1"], "thorough_args": ["--thorough", "--dcap", "2"], "env": ASAN_ENV, "timeout_quick": 900, "budget_thorough": 1200, "timeout_thorough": 1400}],
             "assumptions": SIM_ASSUME},
     "C09": {"jobs": [{"name": "simnet", "target": "simnet", "args": ["--set", "C09"], "thorough_args": ["--thorough"]}], "assumptions": SIM_ASSUME},
     "C10": {"jobs": [{"name": "simnet", "target": "simnet", "args": ["--set", "C10"], "thorough_args": ["--thorough"]}], "assumptions": SIM_ASSUME},
